@@ -267,6 +267,54 @@ class StrReturnsOddText:
         return _OddStr('odd text')
 
 
+class _LyingStr(str):
+    """Text (markup-safe strings, lazy translations are str subclasses) whose own len() and slicing answer otherwise."""
+
+    def __str__(self):
+        return self
+
+    def __len__(self):
+        return 3
+
+    def __getitem__(self, item):
+        return self
+
+
+class _ListSlicedStr(str):
+    """A str subclass whose slices are lists of words."""
+
+    def __str__(self):
+        return self
+
+    def __getitem__(self, item):
+        return str.split(self)
+
+
+class StrReturnsLyingText:
+    """__str__ answers with a long str subclass that claims to be three characters long."""
+
+    def __init__(self, kind):
+        self.kind = kind
+
+    def __str__(self):
+        if self.kind == 'lying':
+            return _LyingStr('long text ' * 400)
+        return _ListSlicedStr('one two three')
+
+
+class KeyStr(str):
+    """A dictionary key that is a str subclass with opinions (case-insensitive header names and the like)."""
+
+    def __str__(self):
+        return self
+
+    def startswith(self, *args):
+        raise Boom('startswith of a key')
+
+    def encode(self, *args, **kwargs):
+        raise Boom('encode of a key')
+
+
 class _NamelessMeta(type):
     @property
     def __name__(cls):
@@ -283,6 +331,9 @@ class NamelessType(metaclass=_NamelessMeta):
 HOSTILE = [
     ('str_returns_odd_text', lambda r: StrReturnsOddText()),
     ('type_without_readable_name', lambda r: NamelessType()),
+    ('str_returns_lying_text', lambda r: StrReturnsLyingText(r.pick(['lying', 'lying', 'list_sliced']))),
+    ('text_of_a_str_subclass', lambda r: r.pick([_LyingStr('long text ' * 400), _ListSlicedStr('one two three')])),
+    ('dict_with_str_subclass_keys', lambda r: {KeyStr('first'): 1, 'plain': [2], KeyStr('_second'): 'b'}),
     ('slow_to_print', lambda r: SlowToPrint()),
     ('user_class_named_like_builtin', lambda r: _named_like_builtin(r.pick(['set', 'list', 'tuple', 'frozenset', 'long', 'str',
                                                                          'dict', 'int', 'generator', 'NoneType']))),
